@@ -17,7 +17,7 @@ use crate::units::{self, Si};
 
 pub struct C18;
 
-pub const QUERIES: [&str; 9] = [
+pub const QUERIES: [&str; 11] = [
     "2 * (3 + 4)",
     "mercury mass",
     "earth mass / mercury mass",
@@ -29,6 +29,10 @@ pub const QUERIES: [&str; 9] = [
     "mars",
     "mars diameter",
     "(2 * earth mass) (mars mass + mars diameter) (mercury mass)",
+    // phrases the search backend itself rejects (a dangling boolean operator of its query
+    // language): the failed lookup must leave nothing behind for the next one
+    "mass NOT",
+    "earth OR",
 ];
 const NOPS: usize = QUERIES.len() * 2;
 
@@ -366,7 +370,7 @@ impl Prop for C18 {
         false
     }
     fn rule(&self) -> String {
-        "histories: all sequences of length <=3 (thorough <=4) over 18 operations (9 queries: literal-only, one fact, two facts, facts inside a function call, an error after a lookup, a cast of a fact, a single word carried by several constants, the full word set of one of those, a three-result query whose middle expression fails after a lookup; each with descriptions off/on; a history is judged only if each of its operations answers identically on two independent fresh databases), each history executed on one shared Db instance that also served all earlier histories of the worker; after every step the operation's observation (values, error text+range, descriptions) must equal its observation on a fresh Db, and describe on/off must give the same values. pairing: every distinct single word of the data set as a phrase (the described constant's value and unit must be the result). near-collision histories: sequences of length <=3 over up to 16 full word sets of shipped constants that share word prefixes of >=5 characters (mauritius/mauritania...), each answer compared with the independently decoded constant. lookup-free histories: all sequences of length <=3 over 20 unit / number / function queries that would collide in plausible caches (one unit word under several prefixes and powers, one function with different arguments, one mantissa with different exponents), each step compared with a hand-written exact expectation. multi-result queries: (A) (B), (B) (A), (A) (B) (A') over 5+5 expressions with disjoint phrase sets (values, failing after a lookup, failing without one): the phrases of every computed result must be reported, in order, whatever fails before or after it. command line: the real `any` binary with and without --describe over up to 8 phrases (4 whose constant records a source, 4 whose constant records none): the --describe output must begin with the plain output, a phrase alone must be described with its own words and the stored description text, and for every ordered pair and triple of phrases as separate results and every ordered pair as a product the describe block must be the header followed by each phrase's own single-phrase description lines in order (within a product: in either order). expressions: all trees with <=3 operands over {2, 0.5, 4 fact phrases} x {+ - * /} with explicit grouping; value with describe = value without = reference evaluation with the described constants substituted; descriptions = the phrases as written, one per phrase occurrence, in the evaluation order inferred from the two-phrase expressions. Non-trivial = the history/expression contains at least one fact lookup; distinct = distinct histories/expressions".into()
+        "histories: all sequences of length <=3 (thorough <=4) over 22 operations (quick, length 3: the backend-rejected phrases only as one of the first two steps) (11 queries: two phrases the search backend rejects (a dangling NOT / OR), literal-only, one fact, two facts, facts inside a function call, an error after a lookup, a cast of a fact, a single word carried by several constants, the full word set of one of those, a three-result query whose middle expression fails after a lookup; each with descriptions off/on; a history is judged only if each of its operations answers identically on two independent fresh databases), each history executed on one shared Db instance that also served all earlier histories of the worker; after every step the operation's observation (values, error text+range, descriptions) must equal its observation on a fresh Db, and describe on/off must give the same values. pairing: every distinct single word of the data set as a phrase (the described constant's value and unit must be the result). near-collision histories: sequences of length <=3 over up to 16 full word sets of shipped constants that share word prefixes of >=5 characters (mauritius/mauritania...), each answer compared with the independently decoded constant. lookup-free histories: all sequences of length <=3 over 20 unit / number / function queries that would collide in plausible caches (one unit word under several prefixes and powers, one function with different arguments, one mantissa with different exponents), each step compared with a hand-written exact expectation. multi-result queries: (A) (B), (B) (A), (A) (B) (A') over 5+5 expressions with disjoint phrase sets (values, failing after a lookup, failing without one): the phrases of every computed result must be reported, in order, whatever fails before or after it. command line: the real `any` binary with and without --describe over up to 8 phrases (4 whose constant records a source, 4 whose constant records none): the --describe output must begin with the plain output, a phrase alone must be described with its own words and the stored description text, and for every ordered pair and triple of phrases as separate results and every ordered pair as a product the describe block must be the header followed by each phrase's own single-phrase description lines in order (within a product: in either order). expressions: all trees with <=3 operands over {2, 0.5, 4 fact phrases} x {+ - * /} with explicit grouping; value with describe = value without = reference evaluation with the described constants substituted; descriptions = the phrases as written, one per phrase occurrence, in the evaluation order inferred from the two-phrase expressions. Non-trivial = the history/expression contains at least one fact lookup; distinct = distinct histories/expressions".into()
     }
     fn assumptions(&self) -> Vec<String> {
         vec![
@@ -380,7 +384,14 @@ impl Prop for C18 {
         for len in 1..=maxlen {
             let mut idx = vec![0usize; len];
             loop {
-                sink(Case::new("history", idx.iter().map(|i| i.to_string()).collect::<Vec<_>>().join(",")));
+                // quick tier, length 3: the two backend-rejected phrases (the last four operations) only
+                // as one of the first two steps among otherwise ordinary ones (a failed lookup matters
+                // through what follows it); thorough: everything
+                let newer = |i: &usize| *i >= NOPS - 4;
+                let keep = tier == Tier::Thorough || len < 3 || !idx.iter().any(newer) || (idx.iter().filter(|i| newer(i)).count() == 1 && !newer(&idx[2]));
+                if keep {
+                    sink(Case::new("history", idx.iter().map(|i| i.to_string()).collect::<Vec<_>>().join(",")));
+                }
                 let mut i = len;
                 let mut done = true;
                 while i > 0 {
